@@ -56,8 +56,6 @@ class Array(ElementBase):
         normal = np.array(normal)
         matrix = f.mirror_matrix(normal)
 
-        self.points -= origin
-
         mirrored_points = np.dot(self.points - origin, matrix.T)
         self.points = mirrored_points + origin
 
